@@ -441,6 +441,8 @@ def fmt_value(it, kind, val, f):
         pad_write(f, list(sr.chars())); return
     if isinstance(v, Agg) and v.ty == 'Cow' and kind == 'display':
         return fmt_value(it, kind, v.f[0], f)
+    if isinstance(v, Agg) and v.ty == 'Box':
+        return fmt_value(it, kind, v.f[0].f[0].f[0], f)
     if isinstance(v, bool) and kind in ('display', 'debug'):
         f.out.extend((ord(c), 1) for c in ('true' if v else 'false')); return
     if isinstance(v, int) and not isinstance(v, bool):
@@ -1069,6 +1071,7 @@ def install(prog):
     def _(it, m, a):
         n = a[1]
         if is_sym(n): n = it.concretize(n)
+        if n >= (1 << 59): raise Panic('capacity overflow (vec![x; %d])' % n, 'capacity-overflow')
         if n > (1 << 20): raise Unsupported('vec![x; %d]' % n)
         return [clone_val(it, a[0]) for _ in range(n)]
 
@@ -1299,6 +1302,17 @@ def install(prog):
     @M(r'<char as (?:std::fmt::)?Display>::fmt')
     def _(it, m, a):
         ch = deref(a[0]); deref(a[1]).f[0].out.append((ch, len_utf8(it, ch))); return mk_ok(UNIT)
+
+    @M(r'(?:std|core)::char::methods::<impl char>::(to_uppercase|to_lowercase)')
+    def _(it, m, a):
+        c = deref(a[0]); up = m.group(1) == 'to_uppercase'
+        if is_sym(c):
+            if it.char_info.get(c.get_id()) != 1: raise Unsupported('case mapping of a symbolic non-ASCII character')
+            return VecIntoIter([(ascii_upper if up else ascii_lower)(it, c)])
+        if c < 128: return VecIntoIter([(ascii_upper if up else ascii_lower)(it, c)])
+        tbl = getattr(it.prog, 'chartable', None) or {}
+        if c not in tbl: raise Unsupported('case mapping of U+%04X without table entry' % c)
+        return VecIntoIter(list(tbl[c]['toupper' if up else 'tolower']))
 
     @M(r'<char as ToString>::to_string|<&char as ToString>::to_string')
     def _(it, m, a):
@@ -1669,6 +1683,169 @@ def install(prog):
         else:
             a[0].set(it.binop(op, x, y, ty))
         return UNIT
+
+
+    # ---- generic comparison fallbacks ---------------------------------------------------------------
+    @M(r'<(Option|Result)<.*> as PartialEq>::(eq|ne)')
+    def _(it, m, a):
+        r = values_equal(it, deref(a[0]), deref(a[1]))
+        if m.group(2) == 'eq': return r
+        return (not r) if isinstance(r, bool) else z3.Not(r)
+
+    @M(r'<&?(?:str|String) as PartialOrd(?:<&?(?:str|String)>)?>::(lt|le|gt|ge)|<&&str as PartialOrd>::(lt|le|gt|ge)')
+    def _(it, m, a):
+        op = m.group(1) or m.group(2)
+        x, y = as_str(it, a[0]).chars(), as_str(it, a[1]).chars()
+        # lexicographic by code point (= byte order of UTF-8): decided by forking on the first difference
+        for (p, _), (q, _) in zip(x, y):
+            if it.branch(it.binop('Eq', p, q, 'char')): continue
+            lt = it.branch(it.binop('Lt', p, q, 'char'))
+            return {'lt': lt, 'le': lt, 'gt': not lt, 'ge': not lt}[op]
+        if len(x) == len(y): return op in ('le', 'ge')
+        lt = len(x) < len(y)
+        return {'lt': lt, 'le': lt, 'gt': not lt, 'ge': not lt}[op]
+
+    @M(r'<&?(?:str|String) as (?:Partial)?Ord>::(?:partial_)?cmp')
+    def _(it, m, a):
+        x, y = as_str(it, a[0]).chars(), as_str(it, a[1]).chars()
+        r = None
+        for (p, _), (q, _) in zip(x, y):
+            if it.branch(it.binop('Eq', p, q, 'char')): continue
+            r = mk_ordering(-1 if it.branch(it.binop('Lt', p, q, 'char')) else 1); break
+        if r is None: r = mk_ordering(-1 if len(x) < len(y) else (0 if len(x) == len(y) else 1))
+        return mk_some(r) if 'partial_cmp' in m.group(0) else r
+
+    @M(r'<&+(u8|u16|u32|u64|usize|i8|i16|i32|i64|isize|char) as PartialOrd>::(lt|le|gt|ge)')
+    def _(it, m, a): return it.binop(m.group(2).capitalize(), deref(a[0]), deref(a[1]), m.group(1))
+
+    @M(r'<&+(u8|u16|u32|u64|usize|i8|i16|i32|i64|isize|char|bool) as PartialEq>::(eq|ne)')
+    def _(it, m, a):
+        r = it.binop('Eq', deref(a[0]), deref(a[1]), m.group(1))
+        if m.group(2) == 'eq': return r
+        return (not r) if isinstance(r, bool) else z3.Not(r)
+
+    @M(r'<(.+) as PartialOrd(<.*>)?>::(lt|le|gt|ge)')
+    def _(it, m, a):
+        """provided methods of PartialOrd for crate types: through the crate's partial_cmp"""
+        name = it.prog.resolve_crate('<%s as PartialOrd%s>::partial_cmp' % (m.group(1), m.group(2) or ''))
+        if not name: raise Unsupported('call ' + m.group(0))
+        r = it.call(name, a)
+        if r.var == 0: return False
+        o = r.f[0].var
+        return {'lt': o == -1, 'le': o in (-1, 0), 'gt': o == 1, 'ge': o in (0, 1)}[m.group(3)]
+
+    @M(r'<(.+) as PartialEq(<.*>)?>::ne')
+    def _(it, m, a):
+        name = it.prog.resolve_crate('<%s as PartialEq%s>::eq' % (m.group(1), m.group(2) or ''))
+        if not name: raise Unsupported('call ' + m.group(0))
+        r = it.call(name, a)
+        return (not r) if isinstance(r, bool) else z3.Not(r)
+
+    # ---- more String --------------------------------------------------------------------------------
+    @M(r'String::insert_str')
+    def _(it, m, a):
+        so = deref(a[0]); idx = a[1]
+        if is_sym(idx): idx = it.concretize(idx)
+        offs = [0]
+        for _, w in so.chars: offs.append(offs[-1] + w)
+        if idx not in offs: raise Panic('insert_str: not a char boundary', 'str-boundary')
+        k = offs.index(idx)
+        so.chars[k:k] = list(as_str(it, a[2]).chars())
+        return UNIT
+
+    @M(r'String::insert')
+    def _(it, m, a):
+        so = deref(a[0]); idx = a[1]
+        if is_sym(idx): idx = it.concretize(idx)
+        offs = [0]
+        for _, w in so.chars: offs.append(offs[-1] + w)
+        if idx not in offs: raise Panic('insert: not a char boundary', 'str-boundary')
+        so.chars.insert(offs.index(idx), (a[2], len_utf8(it, a[2])))
+        return UNIT
+
+    @M(r'String::replace_range::<(?:std::ops::)?(Range|RangeFrom|RangeTo|RangeFull|RangeInclusive)(?:<usize>)?>')
+    def _(it, m, a):
+        so = deref(a[0]); r = a[1]; k = m.group(1)
+        offs = [0]
+        for _, w in so.chars: offs.append(offs[-1] + w)
+        total = offs[-1]
+        if k == 'Range': lo, hi = r.f[0], r.f[1]
+        elif k == 'RangeFrom': lo, hi = r.f[0], total
+        elif k == 'RangeTo': lo, hi = 0, r.f[0]
+        elif k == 'RangeFull': lo, hi = 0, total
+        else:
+            lo, hi = r.f[0], r.f[1]
+            if is_sym(hi): hi = it.concretize(hi)
+            hi += 1
+        if is_sym(lo): lo = it.concretize(lo)
+        if is_sym(hi): hi = it.concretize(hi)
+        # std: asserts char boundaries of both ends, then slices (start <= end <= len)
+        if lo not in offs: raise Panic('replace_range: start is not a char boundary', 'str-boundary')
+        if hi not in offs: raise Panic('replace_range: end is not a char boundary', 'str-boundary')
+        if lo > hi: raise Panic('slice index starts at %d but ends at %d' % (lo, hi), 'str-slice')
+        so.chars[offs.index(lo):offs.index(hi)] = list(as_str(it, a[2]).chars())
+        return UNIT
+
+    @M(r'String::truncate')
+    def _(it, m, a):
+        so = deref(a[0]); n = a[1]
+        if is_sym(n): n = it.concretize(n)
+        offs = [0]
+        for _, w in so.chars: offs.append(offs[-1] + w)
+        if n >= offs[-1]: return UNIT
+        if n not in offs: raise Panic('truncate: not a char boundary', 'str-boundary')
+        del so.chars[offs.index(n):]
+        return UNIT
+
+    @M(r'String::pop')
+    def _(it, m, a):
+        so = deref(a[0])
+        if not so.chars: return mk_none()
+        return mk_some(so.chars.pop()[0])
+
+    @M(r'String::clear')
+    def _(it, m, a): del deref(a[0]).chars[:]; return UNIT
+
+    @M(r'(?:std::iter::|core::iter::)?repeat_n::<.*>')
+    def _(it, m, a):
+        n = a[1]
+        if is_sym(n): n = it.concretize(n)
+        if n >= (1 << 62): raise Panic('capacity overflow (collecting %d repeated items)' % n, 'capacity-overflow')
+        if n > (1 << 20): raise Unsupported('repeat_n(_, %d)' % n)
+        return VecIntoIter([clone_val(it, a[0]) for _ in range(n)])
+
+    @M(r'(?:std::iter::|core::iter::)?repeat::<.*>')
+    def _(it, m, a): raise Unsupported('unbounded iter::repeat')
+
+    @M(r'core::str::<impl str>::(to_lowercase|to_uppercase)')
+    def _(it, m, a):
+        out = []
+        for c, w in as_str(it, a[0]).chars():
+            if is_sym(c):
+                if it.char_info.get(c.get_id()) != 1: raise Unsupported('case mapping of a symbolic non-ASCII character')
+                out.append(((ascii_lower if m.group(1) == 'to_lowercase' else ascii_upper)(it, c), 1))
+            elif c < 128:
+                out.append(((ascii_lower if m.group(1) == 'to_lowercase' else ascii_upper)(it, c), 1))
+            else:
+                tbl = getattr(it.prog, 'chartable', None) or {}
+                if c not in tbl: raise Unsupported('case mapping of U+%04X without table entry' % c)
+                for x in tbl[c]['tolower' if m.group(1) == 'to_lowercase' else 'toupper']: out.append((x, utf8_width(x)))
+        return StrObj(out)
+
+    @M(r'(?:std::ops::|core::ops::)?RangeInclusive::<.*>::new')
+    def _(it, m, a): return Agg('RangeInclusive', None, [a[0], a[1], False])
+
+    @M(r'(?:std::ops::|core::ops::)?RangeInclusive::<.*>::(start|end)')
+    def _(it, m, a): return deref1(a[0]).sub(0 if m.group(1) == 'start' else 1) if isinstance(a[0], Ref) else a[0].f[0 if m.group(1) == 'start' else 1]
+
+    @M(r'<&mut .* as DerefMut>::deref_mut|<&mut .* as Deref>::deref|<&.* as Deref>::deref')
+    def _(it, m, a):
+        # &mut &mut T -> &mut T
+        v = a[0]
+        if isinstance(v, Ref):
+            x = v.get()
+            if isinstance(x, (Ref, SliceRef, StrRef)): return x
+        return v
 
     # ---- logging: empty bodies (log level is statically disabled) -------------------------------
     @M(r'<Level as PartialOrd<LevelFilter>>::le|<log::Level as PartialOrd<log::LevelFilter>>::le')
